@@ -10,6 +10,8 @@
   about floating point; what is proved is the exact-arithmetic statement (residual = 0).
 -/
 import Mathlib.LinearAlgebra.Matrix.NonsingularInverse
+import Mathlib.Algebra.Order.Field.Rat
+import Mathlib.Tactic.NormNum
 import TfelVerif.C07.Tiny
 
 set_option linter.unusedSectionVars false
@@ -35,11 +37,12 @@ structure IsLU (n : Nat) (A m : Mat K) (p : Perm) : Prop where
 
 /-! ### (a) `LUDecomp::exe` -/
 
-/-- success of `LUDecomp::exe` ⇒ `P A = L U` with `p` a permutation, no null pivot, and `d = ±1` -/
+/-- success of `LUDecomp::exe` ⇒ `P A = L U` with `p` a permutation, no null pivot, and `d` the
+signature of `p` (`p` is a product of `k` transpositions and `d = (-1)^k`, in particular `d = ±1`) -/
 theorem luDecomp_spec {n : Nat} {eps : K} (he : 0 < eps) {A : Mat K} {s : LUState K}
-    (h : luDecomp n eps A = some s) : IsLU n A s.m s.p ∧ (s.d = 1 ∨ s.d = -1) := by
+    (h : luDecomp n eps A = some s) : IsLU n A s.m s.p ∧ SignOK n s.p s.d ∧ (s.d = 1 ∨ s.d = -1) := by
   have hi := luDecomp_inv he h
-  exact ⟨⟨hi.minv.perm, hi.minv.diag, hi.minv.lu_product⟩, hi.sign⟩
+  exact ⟨⟨hi.minv.perm, hi.minv.diag, hi.minv.lu_product⟩, hi.sign, hi.sign.unit⟩
 
 /-- the `is_identity` flag is sound: when it is still set the permutation is the identity, so the
 specialised branches of the code (direct indexing) compute the same thing as the general ones -/
@@ -341,5 +344,93 @@ theorem luStep_null_column_fails {n i : Nat} (hi : i < n) {eps : K} (he : 0 < ep
   rw [if_pos]
   rw [absT_eq, h0 i (le_refl _) hi, abs_zero]
   exact he
+
+/-! ### (f) QR — partial
+
+Proved: the triangular back substitution of `QRDecomp::back_substitute` and its failure test.
+NOT proved (missing): the Householder loop of `QRDecomp::exe`/`tq_product`, i.e. the full statement
+  `qrSolve sqrt n e A b = some x → Solves n A x b`   (for `sqrt` with `sqrt t * sqrt t = t`, `0 ≤ t`)
+and `Q` orthogonal / `R` upper triangular / `Q R = A`.  The QR routines are covered by the
+bit-exact correspondence only. -/
+
+/-- `QRDecomp::back_substitute(v, a, d, e)` returning normally : `R x = v` where `R` has diagonal
+`d` and strict upper part `a`; and no diagonal entry is null -/
+theorem qrBackSubst_partial {n : Nat} {e : K} (he : 0 < e) (a : Mat K) (d v x : Vec K)
+    (h : qrBackSubst n e a d v = some x) :
+    ∀ l, l < n → d.get l ≠ 0 ∧
+      d.get l * x.get l + ∑ j ∈ range (n - (l + 1)), a.get l (l + 1 + j) * x.get (l + 1 + j) = v.get l := by
+  unfold qrBackSubst at h
+  simp only [subFrom_eq] at h
+  have key : ∀ c, c ≤ n → ∀ x : Vec K,
+      forRangeOpt 0 c (fun t (v : Vec K) =>
+        if absT (d.get (n - 1 - t)) < e then none
+        else some (v.set (n - 1 - t)
+          ((v.get (n - 1 - t) - ∑ j ∈ range (n - (n - 1 - t + 1)), a.get (n - 1 - t) (n - 1 - t + 1 + j) *
+            v.get (n - 1 - t + 1 + j)) / d.get (n - 1 - t)))) v = some x →
+      (∀ l, n - c ≤ l → l < n → d.get l ≠ 0 ∧
+        d.get l * x.get l + ∑ j ∈ range (n - (l + 1)), a.get l (l + 1 + j) * x.get (l + 1 + j) = v.get l) ∧
+      (∀ l, l < n - c → x.get l = v.get l) := by
+    intro c
+    induction c with
+    | zero =>
+      intro _ x hx
+      rw [forRangeOpt_zero] at hx
+      cases Option.some.inj hx
+      exact ⟨fun l h1 h2 => by omega, fun l _ => rfl⟩
+    | succ c ih =>
+      intro hc x hx
+      rw [forRangeOpt_succ, Option.bind_eq_some_iff] at hx
+      obtain ⟨z, hz, hx⟩ := hx
+      obtain ⟨i1, i2⟩ := ih (by omega) z hz
+      rw [zero_add] at hx
+      obtain ⟨r, hr⟩ : ∃ r, n - 1 - c = r := ⟨_, rfl⟩
+      rw [hr] at hx
+      split_ifs at hx with hchk
+      cases Option.some.inj hx
+      have hd := ne_zero_of_not_absT_lt he hchk
+      have hs : ∀ l, r ≤ l → ∑ j ∈ range (n - (l + 1)), a.get l (l + 1 + j) *
+          (z.set r ((z.get r - ∑ j ∈ range (n - (r + 1)), a.get r (r + 1 + j) * z.get (r + 1 + j)) / d.get r)).get (l + 1 + j) =
+          ∑ j ∈ range (n - (l + 1)), a.get l (l + 1 + j) * z.get (l + 1 + j) := by
+        intro l hl
+        apply sum_congr rfl
+        intro j _
+        rw [Vec.get_set, if_neg (by omega)]
+      constructor
+      · intro l h1 h2
+        rw [hs l (by omega)]
+        by_cases hlr : l = r
+        · subst hlr
+          refine ⟨hd, ?_⟩
+          rw [Vec.get_set, if_pos rfl, ← i2 l (by omega)]
+          field_simp
+          ring
+        · rw [Vec.get_set, if_neg hlr]
+          exact i1 l (by omega) h2
+      · intro l hl
+        rw [Vec.get_set, if_neg (by omega)]
+        exact i2 l (by omega)
+  intro l hl
+  exact (key n (le_refl _) x h).1 l (by omega) hl
+
+/-- an exactly null diagonal entry of `R` and `e > 0` : `QRDecomp::back_substitute` throws -/
+theorem qrBackSubst_null_pivot_fails {n : Nat} {e : K} (he : 0 < e) (a : Mat K) (d v : Vec K)
+    {l : Nat} (hl : l < n) (h0 : d.get l = 0) : qrBackSubst n e a d v = none := by
+  cases h : qrBackSubst n e a d v with
+  | none => rfl
+  | some x => exact absurd h0 (qrBackSubst_partial he a d v x h l hl).1
+
+/-! ### non-vacuity : the hypotheses are satisfiable (`K = ℚ`) -/
+
+example : ∃ s, luDecomp 1 (1/2 : ℚ) { get := fun _ _ => 2 } = some s := by
+  simp [luDecomp, luLoop, luStep, lUpdate, pivotStep, pivotSearch, uUpdate, forRange, sumTo, absT, Perm.id]
+  norm_num
+
+example : ∃ s, luDecomp 2 (1/2 : ℚ) { get := fun a b => if a = b then 1 else 2 } = some s := by
+  simp [luDecomp, luLoop, luStep, lUpdate, pivotStep, pivotSearch, uUpdate, forRange, sumTo, subFrom,
+    absT, Perm.id, Perm.swap, Mat.set]
+  norm_num
+
+example : luDecomp 1 (1/2 : ℚ) { get := fun _ _ => 0 } = none := by
+  simp [luDecomp, luLoop, luStep, lUpdate, pivotStep, pivotSearch, forRange, sumTo, absT, Perm.id]
 
 end TfelVerif.C07.Props
